@@ -111,6 +111,13 @@ func newTypedArshalers[Coder any](as ...*typedArshalers[Coder]) *typedArshalers[
 	return &a
 }
 
+// hasFromAny reports whether any function in a operates on a Go type used to
+// represent arbitrary JSON. Like lookup, it may be called on a nil receiver
+// (e.g., as provided by WithMarshalers(nil) or WithUnmarshalers(nil)).
+func (a *typedArshalers[Coder]) hasFromAny() bool {
+	return a != nil && a.fromAny
+}
+
 func (a *typedArshalers[Coder]) lookup(fnc func(*Coder, addressableValue, *jsonopts.Struct) error, t reflect.Type) (func(*Coder, addressableValue, *jsonopts.Struct) error, bool) {
 	if a == nil {
 		return fnc, false
